@@ -70,6 +70,9 @@ fn setup(args: &[String]) -> (cicada::verif_hooks::Sh, usize) {
 }
 fn handle(name: &str, a: &[String]) -> String {
     match name {
+        "escaped_word_start" => format!("{}", vh::escaped_word_start(&a[0])),
+        "highlight" => jlist(&vh::highlight(&a[0]), |x| format!("[{},{},{}]", x.0, x.1, x.2)),
+        "complete_path" => jlist(&vh::complete_path(&a[0], a[1] == "1"), |x| js(x)),
         "cd" => match std::env::set_current_dir(&a[0]) { Ok(_) => "true".to_string(), Err(_) => "false".to_string() },
         "line_to_cmds" => jlist(&vh::line_to_cmds(&a[0]), |x| js(x)),
         "parse_line" => {
